@@ -12,6 +12,24 @@
 //       SubspaceStateSampler over the nested component at the path, with a SCRIPTED inner sampler installed on that
 //       subspace (setStateSamplerAllocator): the inner sampler records the call it receives and writes the scripted substate
 //       -> `out=<full state> | call=<U|N|G> d=<distance it was given> near=<substate it was given>`   (lock-step)
+//   pre <u|n|g> <n> <dist> <space> <k> <state>*k <near>
+//       PrecomputedStateSampler over k given (in-bounds) states: n calls of sampleUniform / sampleUniformNear(near, dist) /
+//       sampleGaussian(near, dist); satisfiesBounds of every output
+//       -> `n=<n> bad=<k> first=<state|->`                                            (implementation only)
+//   det <so2|rv|se2> <halton|list|file> <n> <m> <value>*m <space>
+//       SO2 / RealVector / SE2 DeterministicStateSampler over a HaltonSequence (first n points), over a scripted
+//       DeterministicSequence returning the m given values cyclically, or over a PrecomputedSequence read from a file the
+//       harness writes with those values (17 significant digits); n calls of sampleUniform
+//       -> `<state> ; <state> ; …`                                                     (lock-step)
+//   hn <int|real> <rmin> <rmax> <focus> <s0> <s1> <s2> <s3>
+//       RNG::halfNormalInt / halfNormalReal on the Gaussian draw std::normal_distribution makes from the mt19937 state
+//       x[0..3] = s0..s3 (index 0; a fresh distribution: no saved value)
+//       -> `r=<int or double bits> g=<gaussian01 draw>`                                 (lock-step)
+//   rewt <n|g> <n> <dist> <space_1> <space_2> <centre>
+//       space_2 = space_1 with other subspace WEIGHTS: the sampler is allocated under the weights of space_1, then
+//       setSubspaceWeight() is called for every component (nested compounds included); n draws from the OLD sampler and
+//       n from a newly allocated one, satisfiesBounds of each
+//       -> `n=<n> badOld=<k> badNew=<k> first=<state|->`                               (implementation only)
 //   uint <h|s|c> <lo> <hi> <s0> <s1>
 //       RNG::uniformInt(lo, hi) as coded, on an adversarial draw: the RNG's std::mt19937 is put into the state
 //       (x[0] = s0, x[1] = s1, index 0), so the next uniform01() is a chosen value (e.g. nextafter(1, 0)).
@@ -68,6 +86,13 @@
 #include "common/spaces.h"
 #include <ompl/base/SpaceInformation.h>
 #include <ompl/base/ScopedState.h>
+#include <ompl/base/PrecomputedStateSampler.h>
+#include <ompl/base/samplers/DeterministicStateSampler.h>
+#include <ompl/base/samplers/deterministic/HaltonSequence.h>
+#include <ompl/base/samplers/deterministic/PrecomputedSequence.h>
+#include <fstream>
+#include <iomanip>
+#include <unistd.h>
 #include <ompl/base/StateSampler.h>
 #include <ompl/base/StateValidityChecker.h>
 #include <ompl/base/DiscreteMotionValidator.h>
@@ -388,16 +413,19 @@ static bool hasWrappedCompound(const ob::StateSpace *s)
 
 static void safeComputeLocations(const ob::StateSpacePtr &sp)
 {
+    // /repo fd9a6cce3 made computeLocations() safe for a wrapper around a compound space, but the 4-argument copyStateData()
+    // that SubspaceStateSampler::sampleUniformNear / sampleGaussian use (StateSpace.cpp, `sourceS->isCompound()` then
+    // `as<CompoundStateSpace>()`) still casts such a wrapper component: no subspace samplers over these spaces
     if (hasWrappedCompound(sp.get()))
-        throw ompl::Exception("wrapper around a compound space: computeLocations() would be undefined behaviour");
+        throw ompl::Exception("wrapper around a compound space inside the space");
     sp->computeLocations();
 }
 
-static void setMtState(std::mt19937 &g, unsigned long s0, unsigned long s1)
+static void setMtState(std::mt19937 &g, unsigned long s0, unsigned long s1, unsigned long s2 = 0, unsigned long s3 = 0)
 {
     std::stringstream ss;
-    ss << s0 << ' ' << s1;
-    for (int k = 2; k < 624; ++k)
+    ss << s0 << ' ' << s1 << ' ' << s2 << ' ' << s3;
+    for (int k = 4; k < 624; ++k)
         ss << " 0";
     ss << " 0";   // index: the next two outputs are temper(s0), temper(s1), no twist
     ss >> g;
@@ -410,6 +438,50 @@ struct PeekCompoundSamplers : public ob::CompoundStateSampler
         return s.*(&PeekCompoundSamplers::samplers_);
     }
 };
+
+// scripted DeterministicSequence of the `det` op
+class ListSequence : public ob::DeterministicSequence
+{
+public:
+    ListSequence(unsigned dim, std::vector<double> v) : ob::DeterministicSequence(dim), v_(std::move(v))
+    {
+    }
+    std::vector<double> sample() override
+    {
+        std::vector<double> out;
+        for (unsigned j = 0; j < dimensions_; ++j)
+            out.push_back(v_[(k_++) % v_.size()]);
+        return out;
+    }
+
+private:
+    std::vector<double> v_;
+    size_t k_ = 0;
+};
+
+static void applyWeights(ob::StateSpace *dst, const ob::StateSpace *src)
+{
+    if (auto *w = dynamic_cast<ob::WrapperStateSpace *>(dst))
+    {
+        auto *ws = dynamic_cast<const ob::WrapperStateSpace *>(src);
+        if (!ws)
+            throw vp::ParseError("structure");
+        applyWeights(w->getSpace().get(), ws->getSpace().get());
+        return;
+    }
+    auto *c = dynamic_cast<ob::CompoundStateSpace *>(dst);
+    auto *cs = dynamic_cast<const ob::CompoundStateSpace *>(src);
+    if (!c && !cs)
+        return;
+    if (!c || !cs || c->getSubspaceCount() != cs->getSubspaceCount())
+        throw vp::ParseError("structure");
+    for (unsigned j = 0; j < c->getSubspaceCount(); ++j)
+    {
+        if (!c->isLocked() || true)
+            c->setSubspaceWeight(j, cs->getSubspaceWeight(j));
+        applyWeights(c->getSubspace(j).get(), cs->getSubspace(j).get());
+    }
+}
 
 // per-component recorder of the `cmps` op (leaves the component state as it is)
 class RecordingComponent : public ob::StateSampler
@@ -623,6 +695,10 @@ int main()
                 auto sp = vp::parseSpace(t, i);
                 // the subspace at the path: through plain compounds only (as the model)
                 ob::StateSpacePtr sub = sp;
+                // a TOP-LEVEL wrapper is transparent: its location tables are those of the wrapped space (/repo 33dd7dfa9)
+                if (!path.empty())
+                    while (auto *w = dynamic_cast<ob::WrapperStateSpace *>(sub.get()))
+                        sub = w->getSpace();
                 for (unsigned long k : path)
                 {
                     auto *c = dynamic_cast<ob::CompoundStateSpace *>(sub.get());
@@ -666,15 +742,39 @@ int main()
                     throw;
                 }
                 SubScript *scp = &sc;
-                if (hasWrappedCompound(sp.get()))
                 {
-                    sp->freeState(st);
-                    sp->freeState(near);
-                    throw vp::ParseError("wrapper around a compound space");
+                    // (a TOP-LEVEL wrapper is allowed: the directed F168 probes; wrappers around compounds deeper inside are not)
+                    const ob::StateSpace *top = sp.get();
+                    while (auto *w = dynamic_cast<const ob::WrapperStateSpace *>(top))
+                        top = w->getSpace().get();
+                    if (hasWrappedCompound(top))
+                    {
+                        sp->freeState(st);
+                        sp->freeState(near);
+                        throw vp::ParseError("wrapper around a compound space inside the space");
+                    }
                 }
                 sub->setStateSamplerAllocator([scp](const ob::StateSpace *s)
                                               { return std::make_shared<RecordingInner>(s, scp); });
-                sp->computeLocations();
+                // a wrapper gets its location tables only in setup() (WrapperStateSpace::setup copies the wrapped space's;
+                // its computeLocations() fills the inner tables only); setup() refuses zero-extent spaces -> bad-op on both
+                // sides is avoided by the generator (bounds of wrapped-top cases are non-degenerate)
+                if (dynamic_cast<ob::WrapperStateSpace *>(sp.get()))
+                {
+                    try
+                    {
+                        sp->setup();   // (directed F168 probes only: the generator keeps random `subs` lines off wrapped tops)
+                    }
+                    catch (...)
+                    {
+                        sub->clearStateSamplerAllocator();
+                        sp->freeState(st);
+                        sp->freeState(near);
+                        throw;
+                    }
+                }
+                else
+                    sp->computeLocations();
                 {
                     auto sampler = sp->allocSubspaceStateSampler(sub);
                     if (kind == "u")
@@ -689,6 +789,191 @@ int main()
                 sub->clearStateSamplerAllocator();
                 sp->freeState(st);
                 sp->freeState(near);
+            }
+            else if (op == "pre")
+            {
+                if (t.size() < 6)
+                    throw vp::ParseError("pre");
+                std::string kind = t[i++];
+                if (kind != "u" && kind != "n" && kind != "g")
+                    throw vp::ParseError("kind");
+                unsigned long n = vp::needN(t, i);
+                double dist = vp::needF(t, i);
+                auto sp = vp::parseSpace(t, i);
+                unsigned long k = vp::needN(t, i);
+                if (k < 1)
+                    throw vp::ParseError("k");
+                std::vector<ob::State *> own;
+                struct Free
+                {
+                    ob::StateSpacePtr sp;
+                    std::vector<ob::State *> &v;
+                    ~Free()
+                    {
+                        for (auto *x : v)
+                            sp->freeState(x);
+                    }
+                } freer{sp, own};
+                for (unsigned long j = 0; j < k + 2; ++j)
+                    own.push_back(sp->allocState());
+                for (unsigned long j = 0; j < k + 1; ++j)
+                    vp::parseStateInto(sp.get(), own[j], t, i);   // k states, then near
+                if (i != t.size())
+                    throw vp::ParseError("trailing");
+                std::vector<const ob::State *> states(own.begin(), own.begin() + k);
+                ob::State *near = own[k], *st = own[k + 1];
+                ob::PrecomputedStateSampler sampler(sp.get(), states);
+                unsigned long bad = 0;
+                std::string first = "-";
+                for (unsigned long q = 0; q < n; ++q)
+                {
+                    sp->copyState(st, near);
+                    if (kind == "u")
+                        sampler.sampleUniform(st);
+                    else if (kind == "n")
+                        sampler.sampleUniformNear(st, near, dist);
+                    else
+                        sampler.sampleGaussian(st, near, dist);
+                    if (!sp->satisfiesBounds(st))
+                    {
+                        if (bad == 0)
+                            first = vp::showState(sp, st);
+                        ++bad;
+                    }
+                }
+                std::cout << "n=" << n << " bad=" << bad << " first=" << first << "\n";
+            }
+            else if (op == "det")
+            {
+                if (t.size() < 6)
+                    throw vp::ParseError("det");
+                std::string which = t[i++];
+                std::string seq = t[i++];
+                if ((which != "so2" && which != "rv" && which != "se2") || (seq != "halton" && seq != "list" && seq != "file"))
+                    throw vp::ParseError("det args");
+                unsigned long n = vp::needN(t, i);
+                unsigned long m = vp::needN(t, i);
+                std::vector<double> vals;
+                for (unsigned long j = 0; j < m; ++j)
+                    vals.push_back(vp::needF(t, i));
+                auto sp = vp::parseSpace(t, i);
+                if (i != t.size() || (seq != "halton" && m < 1))
+                    throw vp::ParseError("trailing");
+                unsigned dim = sp->getDimension();
+                if ((which == "so2" && !dynamic_cast<ob::SO2StateSpace *>(sp.get())) ||
+                    (which == "rv" && !dynamic_cast<ob::RealVectorStateSpace *>(sp.get())) ||
+                    (which == "se2" && !dynamic_cast<ob::SE2StateSpace *>(sp.get())) || dim < 1)
+                    throw vp::ParseError("det space");
+                std::shared_ptr<ob::DeterministicSequence> sq;
+                std::string path;
+                if (seq == "halton")
+                    sq = std::make_shared<ob::HaltonSequence>(dim);
+                else if (seq == "list")
+                    sq = std::make_shared<ListSequence>(dim, vals);
+                else
+                {
+                    if (m % dim != 0)
+                        throw vp::ParseError("file needs whole rows");
+                    path = "/tmp/verif_c08_seq_" + std::to_string((long)getpid()) + ".txt";
+                    std::ofstream f(path);
+                    f << std::setprecision(17);
+                    for (unsigned long j = 0; j < m; ++j)
+                        f << vals[j] << ((j + 1) % dim == 0 ? "\n" : " ");
+                    f.close();
+                    sq = std::make_shared<ob::PrecomputedSequence>(path, dim);
+                    std::remove(path.c_str());
+                }
+                std::shared_ptr<ob::StateSampler> sampler;
+                if (which == "so2")
+                    sampler = std::make_shared<ob::SO2DeterministicStateSampler>(sp.get(), sq);
+                else if (which == "rv")
+                    sampler = std::make_shared<ob::RealVectorDeterministicStateSampler>(sp.get(), sq);
+                else
+                    sampler = std::make_shared<ob::SE2DeterministicStateSampler>(sp.get(), sq);
+                ob::State *st = sp->allocState();
+                std::string out;
+                for (unsigned long q = 0; q < n; ++q)
+                {
+                    sampler->sampleUniform(st);
+                    out += (q ? " ; " : "") + vp::showState(sp, st);
+                }
+                sp->freeState(st);
+                std::cout << out << "\n";
+            }
+            else if (op == "hn")
+            {
+                if (t.size() != 9)
+                    throw vp::ParseError("hn");
+                std::string kind = t[i++];
+                long long lo = vp::needI(t, i), hi = vp::needI(t, i);
+                double focus = vp::needF(t, i);
+                unsigned long long w[4];
+                for (auto &x : w)
+                {
+                    x = vp::needN(t, i);
+                    if (x >= 4294967296ULL)
+                        throw vp::ParseError("word");
+                }
+                if ((kind != "int" && kind != "real") || lo < -2147483648LL || hi > 2147483647LL || hi < lo)
+                    throw vp::ParseError("hn args");
+                ompl::RNG rng(12345);
+                setMtState(rng.generator_, w[0], w[1], w[2], w[3]);
+                ompl::RNG copy(12345);
+                setMtState(copy.generator_, w[0], w[1], w[2], w[3]);
+                double g = copy.gaussian01();
+                if (kind == "int")
+                    std::cout << "r=" << rng.halfNormalInt((int)lo, (int)hi, focus) << " g=" << vp::bits(g) << "\n";
+                else
+                    std::cout << "r=" << vp::bits(rng.halfNormalReal((double)lo, (double)hi, focus)) << " g=" << vp::bits(g)
+                              << "\n";
+            }
+            else if (op == "rewt")
+            {
+                if (t.size() < 6)
+                    throw vp::ParseError("rewt");
+                std::string kind = t[i++];
+                if (kind != "n" && kind != "g")
+                    throw vp::ParseError("kind");
+                unsigned long n = vp::needN(t, i);
+                double dist = vp::needF(t, i);
+                auto sp = vp::parseSpace(t, i);
+                auto sp2 = vp::parseSpace(t, i);
+                ob::State *centre = sp->allocState();
+                ob::State *st = sp->allocState();
+                try
+                {
+                    vp::parseStateInto(sp.get(), centre, t, i);
+                    if (i != t.size())
+                        throw vp::ParseError("trailing");
+                    auto oldSampler = sp->allocDefaultStateSampler();
+                    applyWeights(sp.get(), sp2.get());
+                    auto newSampler = sp->allocDefaultStateSampler();
+                    unsigned long badOld = 0, badNew = 0;
+                    std::string first = "-";
+                    for (unsigned long q = 0; q < 2 * n; ++q)
+                    {
+                        auto &sm = q < n ? oldSampler : newSampler;
+                        if (kind == "n")
+                            sm->sampleUniformNear(st, centre, dist);
+                        else
+                            sm->sampleGaussian(st, centre, dist);
+                        if (!sp->satisfiesBounds(st))
+                        {
+                            if (first == "-")
+                                first = vp::showState(sp, st);
+                            ++(q < n ? badOld : badNew);
+                        }
+                    }
+                    std::cout << "n=" << n << " badOld=" << badOld << " badNew=" << badNew << " first=" << first << "\n";
+                }
+                catch (...)
+                {
+                    sp->freeState(st);
+                    sp->freeState(centre);
+                    throw;
+                }
+                sp->freeState(st);
+                sp->freeState(centre);
             }
             else if (op == "uint")
             {
